@@ -173,8 +173,8 @@ def run(ctx, verdict, replay=None, model_ok=True):
                 replay_jobs.append((add_text(job["pkg"], job["fmt"], job["schema_text"]), job))
                 if job.get("schema"):
                     replay_schemas[job["pkg"]] = dict(c10.schema_from_json(job["schema"]), pkg=job["pkg"])
-        per_fmt = 500 if thorough else 100
-        per_fmt_defaults = 150 if thorough else 24
+        per_fmt = 500 if thorough else 170
+        per_fmt_defaults = 150 if thorough else 40
         k = 0
         for fmt in srcgen.FORMATS:
             for _ in range(per_fmt):
@@ -356,7 +356,7 @@ def run(ctx, verdict, replay=None, model_ok=True):
                     counts["python_roundtrip_differs"] += 1
                     py_rt_groups.add(i)
                     nested = bool(s) and has_nested_maps(s)
-                    cls_ = (lambda y: "map-of-maps-of-non-scalars:wrong-entry" if nested and classify(y) in ("other", "number-changed", "member-absent", "member-added") and len(y[0]) >= 3 else classify(y))
+                    cls_ = (lambda y: "map-of-maps-of-non-scalars:wrong-entry" if nested and classify(y) not in ("date-time-reformatted", "byte-array-printed-as-base64-string") and len(y[0]) >= 3 else classify(y))
                     for cause in sorted({cls_(y) for y in df}):
                         one = [y for y in df if cls_(y) == cause][0]
                         report({"kind": "python-roundtrip-differs", "cause": cause, "fragment": "safe" if i in rt_safe_fail else "excluded"},
@@ -368,7 +368,7 @@ def run(ctx, verdict, replay=None, model_ok=True):
                     counts["wire_differs"] += 1
                     py_wire_groups.add(i)
                     nested = bool(s) and has_nested_maps(s)
-                    cls_ = (lambda y: "map-of-maps-of-non-scalars:wrong-entry" if nested and classify(y) in ("other", "number-changed", "member-absent", "member-added") and len(y[0]) >= 3 else classify(y))
+                    cls_ = (lambda y: "map-of-maps-of-non-scalars:wrong-entry" if nested and classify(y) not in ("date-time-reformatted", "byte-array-printed-as-base64-string") and len(y[0]) >= 3 else classify(y))
                     for cause in sorted({cls_(y) for y in df}):
                         one = [y for y in df if cls_(y) == cause][0]
                         report({"kind": "go-and-python-differ-on-the-wire", "cause": "go->python:" + cause,
